@@ -33,13 +33,16 @@ func randomOp(rng *rand.Rand, kind string, keys int, fresh *int) string {
 		// elements: never expiring (vu 0), already expired (vu 1; rounds start at elapsed >= 2 s) or far future
 		vu := []int{0, 1, 1, 100000}[rng.Intn(4)]
 		val := fmt.Sprintf("%d@%d", v, vu)
-		switch rng.Intn(9) {
+		switch rng.Intn(10) {
 		case 0, 1, 2:
 			return fmt.Sprintf("clos:%d:%s", k, val)
 		case 3, 4:
 			return fmt.Sprintf("cload:%d", k)
 		case 5:
 			return "sweep"
+		case 9:
+			// a sweep whose `now` is behind (0: nothing is expired) or far ahead of the clock (everything with a deadline is)
+			return []string{"sweep:0", "sweep:200000"}[rng.Intn(2)]
 		case 6:
 			return fmt.Sprintf("store:%d:%s", k, val)
 		case 7:
